@@ -1,7 +1,10 @@
 #!/bin/sh
-# usage: try_seed.sh <patch.diff> <tier> <prop> [<prop>...]   : apply to /repo, run checks, ALWAYS revert
+# usage: try_seed.sh <patch.diff> <tier> <prop> [<prop>...]   : apply to /repo, run checks, ALWAYS revert.
+# Evidence and replay files of these trial runs go to a scratch directory, never to /verif/evidence.
 P="$1"; T="$2"; shift 2
+SCR=$(mktemp -d)
 git -C /repo apply "$P" || { echo "patch does not apply to /repo"; exit 2; }
-for c in "$@"; do (cd /verif && ./check "$c" "$T" 2>&1 | grep -v "^KNOWN-FINDING" | cut -c1-400); echo "   -> exit=$? ($c)"; done
+for c in "$@"; do (cd /verif && VERIF_EVIDENCE_DIR="$SCR/evidence" VERIF_REPLAY_DIR="$SCR/replays" ./check "$c" "$T" 2>&1 | grep -v "^KNOWN-FINDING" | cut -c1-400); echo "   -> ($c)"; done
 git -C /repo checkout -- .
 git -C /repo status --short | head -3
+rm -rf "$SCR"
